@@ -98,6 +98,13 @@ def cat_oracle(item, p):
     c = cmath.exp(-2 * a * a - 1j * math.pi * p)
     norm = 1.0 / (2 * (1 + math.exp(-2 * a * a) * math.cos(math.pi * p)))
     w = [norm, norm, norm * c, norm * c.conjugate()]
+    if any(x != [0, 1] for e in item.get("lw", []) for x in e):
+        # a post-selected measurement multiplied every weight by its component's Gaussian density at the outcome
+        w = [wk * cmath.exp(complex(fr(e[0]), fr(e[1]))) for wk, e in zip(w, item["lw"])]
+        tot = sum(w)
+        if abs(tot) < 1e-3 * sum(abs(wk) for wk in w):
+            return None                 # an outcome of (nearly) zero probability density: conditioning on it is ill-defined
+        w = [wk / tot for wk in w]
     mus = [np.array([fr(x) for x in item["re"][k]]) + 1j * np.array([fr(x) for x in item["im"][k]]) for k in range(4)]
     V = np.array([[fr(x) for x in r] for r in item["V"]])
     mean = sum(wk * mk for wk, mk in zip(w, mus))
@@ -131,7 +138,7 @@ def cat_programs(chk, judge):
     """generate cat-state programs, run them on the bosonic and Fock simulators, call judge(cfg, item, p, oracle, result)"""
     depth = 1 if chk.tier == "quick" else 2
     for (an, ad, cut) in ((1, 2, 14), (1, 1, 22)) if chk.tier != "quick" else ((1, 2, 12),):
-        r = chk.tlc("MC_Cat", constants={"Depth": depth, "ANum": an, "ADen": ad, "EMIT": True}, invariants=["CovPhysical", "Paired", "EmitInv"])
+        r = chk.tlc("MC_Cat", constants={"Depth": depth, "ANum": an, "ADen": ad, "MeasMode": "none", "EMIT": True}, invariants=["CovPhysical", "Paired", "EmitInv"])
         items = r.json
         for cfg, cutoff in (("bosonic", None), ("fock", cut)):
             sel = items if cfg == "bosonic" or chk.tier != "quick" else items[chk.seed % 2::2]
